@@ -354,6 +354,48 @@ pub fn pv_tok(l: &Lit) -> String {
 
 pub struct GraphShape {
     pub nodes: usize,
+    pub rels: usize,
+}
+
+/// crude upper estimate of the number of intermediate rows of a query on a graph of the given shape
+/// (keeps generated cases away from the engine's resource limits and from minute-long nested
+/// OptionalWhereFixup evaluations)
+pub fn estimate_rows(q: &[Clause], g: &GraphShape) -> f64 {
+    let n = g.nodes.max(1) as f64;
+    let deg = (g.rels as f64 / n).max(0.5);
+    let mut est = 1.0f64;
+    let mut peak = 1.0f64;
+    let mut bound: Vec<String> = vec![];
+    for c in q {
+        match c {
+            Clause::Match(_, pats) => {
+                for p in pats {
+                    let start_bound = p.start.var.as_ref().is_some_and(|v| bound.contains(v));
+                    let mut f = if start_bound { 1.0 } else { n };
+                    for (r, nd) in &p.steps {
+                        f *= deg * if r.dir == "both" { 2.0 } else { 1.0 };
+                        if let Some(v) = &nd.var {
+                            bound.push(v.clone());
+                        }
+                    }
+                    if let Some(v) = &p.start.var {
+                        bound.push(v.clone());
+                    }
+                    est *= f.max(1.0);
+                }
+            }
+            Clause::Unwind(Expr::List(xs), _) => est *= xs.len().max(1) as f64,
+            Clause::With(p, _) => {
+                if let Some(l) = p.limit {
+                    est = est.min(l.max(1) as f64);
+                }
+                bound.retain(|v| p.items.iter().any(|it| &it.alias == v));
+            }
+            _ => {}
+        }
+        peak = peak.max(est);
+    }
+    peak
 }
 
 /// node props: k (int), s (string), b (bool); rel props: w (int)
@@ -387,6 +429,7 @@ pub fn gen_graph(rng: &mut Rng, out: &mut dyn Write) -> GraphShape {
         )
         .unwrap();
     }
+    let mut nrels = 0;
     if n > 0 {
         let m = if rng.chance(1, 8) { rng.below(3) } else { rng.range(3, 8) as u64 };
         let mut prev: Option<(u64, &str, u64)> = None;
@@ -403,10 +446,11 @@ pub fn gen_graph(rng: &mut Rng, out: &mut dyn Write) -> GraphShape {
             prev = Some((s, t, d));
             let props = if rng.chance(1, 3) { format!("w=i{}", rng.pick(INTS)) } else { "-".into() };
             writeln!(out, "r {} {} {} {}", s, t, d, props).unwrap();
+            nrels += 1;
         }
     }
     writeln!(out, "commit").unwrap();
-    GraphShape { nodes: n }
+    GraphShape { nodes: n, rels: nrels }
 }
 
 // ---------------------------------------------------------------- queries
@@ -844,10 +888,15 @@ pub fn generate_query_stream(rng: &mut Rng, n: usize, _tier: &str, out: &mut dyn
     while emitted < n {
         case += 1;
         writeln!(out, "#case q{}", case).unwrap();
-        gen_graph(rng, out);
+        let shape = gen_graph(rng, out);
         let k = 4;
         for _ in 0..k {
-            let (q, mode) = Gen { rng, params: false }.query();
+            let (mut q, mut mode) = Gen { rng, params: false }.query();
+            let mut tries = 0;
+            while estimate_rows(&q, &shape) > 1500.0 && tries < 30 {
+                (q, mode) = Gen { rng, params: false }.query();
+                tries += 1;
+            }
             let text = esc(&query_text(&q));
             let sx = query_sx(&q);
             writeln!(out, "explain {} {}", text, sx).unwrap();
